@@ -7,6 +7,8 @@ import (
 	"fmt"
 	"go/token"
 	"go/types"
+	"strconv"
+	"strings"
 
 	"golang.org/x/tools/go/ssa"
 )
@@ -34,7 +36,7 @@ type civil struct{ y, m, d *Term }
 
 func (e *Exec) externalEnv(fr *Frame, st State, fn *ssa.Function, args []Val, pos token.Pos) ([]Outcome, bool) {
 	c := e.c
-	switch fn.String() {
+	switch shortFn(fn.String()) {
 	case "time.Date":
 		// assumed contract (calendar normalisation): a valid civil date is returned unchanged,
 		// an invalid one is normalised to a different (year, month, day)
@@ -57,6 +59,64 @@ func (e *Exec) externalEnv(fr *Frame, st State, fn *ssa.Function, args []Val, po
 		e.times[t[0]] = civil{Y, M, D}
 		e.assumed["assumed contract: time.Date normalises exactly the invalid civil dates (conformance: exhaustive test over day/month/year)"] = true
 		return []Outcome{{st: st, ret: t}}, true
+	case "container/list.New":
+		s2, obj := e.alloc(st, c.Const(64, 8), "list")
+		s2 = s2.setGhost(gkey("llen", obj), c.Const(64, 0))
+		e.assumed["assumed contract: container/list (abstract length view only)"] = true
+		return []Outcome{{st: s2, ret: Val{obj}}}, true
+	case "(*container/list.List).Len":
+		return []Outcome{{st: st, ret: Val{e.ghost(st, gkey("llen", args[0][0]), BV(64))}}}, true
+	case "(*container/list.List).PushBack":
+		l := args[0][0]
+		st = st.setGhost(gkey("llen", l), c.Add(e.ghost(st, gkey("llen", l), BV(64)), c.Const(64, 1)))
+		st = e.ghostInc(st, gkey("lpush", l))
+		el := c.Fresh("elem", BV(64))
+		st = st.assume(c.Ne(el, c.Const(64, 0)))
+		return []Outcome{{st: st, ret: Val{el}}}, true
+	case "(*container/list.List).Front", "(*container/list.List).Back":
+		l := args[0][0]
+		n := e.ghost(st, gkey("llen", l), BV(64))
+		el := c.Fresh("elem", BV(64))
+		st = st.assume(c.Eq(c.Eq(el, c.Const(64, 0)), c.Eq(n, c.Const(64, 0))))
+		st = st.setGhost(gkey("lend", el), c.BoolC(fn.Name() == "Back"))
+		return []Outcome{{st: st, ret: Val{el}}}, true
+	case "(*container/list.List).Remove":
+		l := args[0][0]
+		n := e.ghost(st, gkey("llen", l), BV(64))
+		st = e.oblige(st, fr.fn, "nopanic.nil", "list-remove-nil", pos, c.Ne(args[1][0], c.Const(64, 0)))
+		st = st.setGhost(gkey("llen", l), c.Sub(n, c.Const(64, 1)))
+		if fn.Name() == "Remove" {
+			if b := st.getGhost(gkey("lend", args[1][0])); b != nil && b.IsTrue() {
+				st = e.ghostInc(st, gkey("lpopback", l))
+			} else {
+				st = e.ghostInc(st, gkey("lpopfront", l))
+			}
+		}
+		v := e.freshVal(fn.Signature.Results().At(0).Type(), "listval")
+		// assumed: the list holds only what the package pushed — non-nil cemi.Message values
+		if it := e.P.lookupIface("cemi.Message"); it != nil {
+			var alts []*Term
+			for _, I := range e.P.implementers(it) {
+				alts = append(alts, c.Eq(v[0], c.Const(64, e.P.tag(I))))
+			}
+			st = st.assume(c.Or(alts...))
+			st = st.assume(c.Ne(v[1], c.Const(64, 0)))
+			e.assumed["assumed contract: container/list returns only values that were pushed (non-nil cemi.Message)"] = true
+		}
+		return []Outcome{{st: st, ret: v}}, true
+	case "knxnet.DialTunnelUDP", "knxnet.DialTunnelTCP", "knxnet.ListenRouterOnInterface", "knxnet.ListenRouter":
+		// environment: yields a usable socket or an error
+		res := fn.Signature.Results()
+		okS, obj := e.alloc(st, c.Const(64, uint64(e.P.lay.nslots(res.At(0).Type().(*types.Pointer).Elem()))), "socket")
+		okS = e.ghostInc(okS, "ndial")
+		okS = okS.setGhost(gkey("nsend", obj), c.Const(64, 0))
+		okS = okS.setGhost(gkey("nclosesock", obj), c.Const(64, 0))
+		s3, ev := e.freshError(e.ghostInc(st, "ndialfail"), "dial")
+		s3 = e.ghostInc(s3, "ndial")
+		return []Outcome{
+			{st: okS.branch(c.Fresh("dial.ok", Bool)), ret: Val{obj, c.Const(64, 0), c.Const(64, 0)}},
+			{st: s3, ret: Val{c.Const(64, 0), ev[0], ev[1]}},
+		}, true
 	case "(*sync.Mutex).Lock":
 		mu := args[0][0]
 		st = e.oblige(st, fr.fn, "lock", "not-held", pos, c.Not(e.ghost(st, gkey("held", mu), Bool)))
@@ -66,6 +126,7 @@ func (e *Exec) externalEnv(fr *Frame, st State, fn *ssa.Function, args []Val, po
 		mu := args[0][0]
 		st = e.oblige(st, fr.fn, "lock", "held", pos, e.ghost(st, gkey("held", mu), Bool))
 		st = st.setGhost(gkey("held", mu), c.False)
+		st = st.setGhost(gkey("unlockclock", mu), e.ghost(st, "clock", BV(64)))
 		return []Outcome{{st: st}}, true
 	case "(*sync.WaitGroup).Add", "(*sync.WaitGroup).Done", "(*sync.WaitGroup).Wait":
 		st = e.ghostInc(st, "wg:"+fn.Name())
@@ -97,6 +158,7 @@ func (e *Exec) externalEnv(fr *Frame, st State, fn *ssa.Function, args []Val, po
 		ch := e.newChan(&s2, "ticker.C")
 		s2.h[3] = e.store(s2.h[3], obj, ch)
 		s2 = s2.setGhost(gkey("period", ch), d)
+		s2 = s2.setGhost("lastticker.d", d)
 		s2 = e.ghostInc(s2, "nticker")
 		return []Outcome{{st: s2, ret: Val{obj}}}, true
 	case "(*time.Ticker).Stop":
@@ -106,6 +168,7 @@ func (e *Exec) externalEnv(fr *Frame, st State, fn *ssa.Function, args []Val, po
 		d := args[0][0]
 		ch := e.newChan(&st, "after")
 		st = st.setGhost(gkey("period", ch), d)
+		st = st.setGhost("lastafter.d", d)
 		st = e.ghostInc(st, "nafter")
 		return []Outcome{{st: st, ret: Val{ch}}}, true
 	case "time.AfterFunc":
@@ -163,6 +226,8 @@ func (e *Exec) socketInvoke(fr *Frame, st State, cc *ssa.CallCommon, recv Val, a
 		st = st.setGhost(nkey, c.Add(n, c.Const(64, 1)))
 		st = st.setGhost(gkey("lastsend", sock)+"#0", p[0])
 		st = st.setGhost(gkey("lastsend", sock)+"#1", p[1])
+		st = st.setGhost(gkey("sendclock", sock), e.ghost(st, "clock", BV(64)))
+		st = e.ghostInc(st, "nsocksend")
 		st = e.oblige(st, fr.fn, "chan", "send-nonnil", pos, c.Ne(p[0], c.Const(64, 0)))
 		err := e.freshVal(cc.Signature().Results().At(0).Type(), "senderr")
 		st = st.assume(c.Imp(c.Eq(err[0], c.Const(64, 0)), c.Eq(err[1], c.Const(64, 0))))
@@ -171,11 +236,14 @@ func (e *Exec) socketInvoke(fr *Frame, st State, cc *ssa.CallCommon, recv Val, a
 		return []Outcome{{st: st, ret: Val{c.Apply("sock.inbound", BV(64), sock)}}}
 	case "Close":
 		st = e.ghostInc(st, gkey("nclosesock", sock))
+		st = e.ghostInc(st, "nsockclose")
 		err := e.freshVal(cc.Signature().Results().At(0).Type(), "closeerr")
 		st = st.assume(c.Imp(c.Eq(err[0], c.Const(64, 0)), c.Eq(err[1], c.Const(64, 0))))
 		return []Outcome{{st: st, ret: err}}
 	case "LocalAddr":
 		r := Val{c.Apply("sock.localaddr.tag", BV(64), sock), c.Apply("sock.localaddr.word", BV(64), sock)}
+		st = st.assume(c.Ne(r[0], c.Const(64, 0)))
+		e.assumed["a live socket has a non-nil local address"] = true
 		return []Outcome{{st: st, ret: r}}
 	}
 	e.fail("knxnet.Socket method %s has no environment model", cc.Method.Name())
@@ -184,7 +252,7 @@ func (e *Exec) socketInvoke(fr *Frame, st State, cc *ssa.CallCommon, recv Val, a
 
 func (e *Exec) externalInvokeEnv(fr *Frame, st State, cc *ssa.CallCommon, recv Val, args []Val, pos token.Pos) ([]Outcome, bool) {
 	switch cc.Method.Name() {
-	case "Error", "String":
+	case "Error", "String", "Network":
 		if cc.Method.Type().(*types.Signature).Params().Len() == 0 {
 			s, v := e.freshString(st, "msg")
 			e.assumed["error.Error()/Stringer.String() of foreign values return some string"] = true
@@ -241,7 +309,122 @@ func (e *Exec) ghost(st State, name string, sort Sort) *Term {
 	if g := st.getGhost(name); g != nil {
 		return g
 	}
-	return e.c.Var(fmt.Sprintf("g%d.%s", st.gepoch, name), sort)
+	ep := st.gepoch
+	k := ghostKind(name)
+	key := name
+	if i := strings.IndexByte(key, '#'); i >= 0 {
+		key = key[:i]
+	}
+	for n := st.kepoch; n != nil; n = n.prev {
+		if n.name == k || n.name == key {
+			if int(n.val.C) > ep {
+				ep = int(n.val.C)
+			}
+			break
+		}
+	}
+	v := e.c.Var(fmt.Sprintf("g%d.%s", ep, name), sort)
+	if (k == "clock" || k == "sendclock" || k == "unlockclock" || k == "slept") && !e.ghostBounded[v] {
+		e.ghostBounded[v] = true
+		e.axioms = append(e.axioms, e.c.Ult(v, e.c.Const(64, 1<<60)))
+	}
+	if sort.K == KBV && sort.W == 64 && counterKinds[k] && !e.ghostBounded[v] {
+		// ghost counters are mathematical integers: far from wrapping
+		e.ghostBounded[v] = true
+		e.axioms = append(e.axioms, e.c.Ult(v, e.c.Const(64, 1<<40)))
+	}
+	return v
+}
+
+var counterKinds = map[string]bool{"nsend": true, "nsent": true, "nrecv": true, "nclose": true, "nspawn": true,
+	"nsocksend": true, "nsockclose": true, "ndial": true, "ndialfail": true, "llen": true, "lpush": true, "lpopfront": true, "lpopback": true, "nticker": true, "nafter": true, "nafterfunc": true, "ntickerstop": true, "wg": true, "nclosesock": true}
+
+// ghostOfFresh: the ghost variable belongs to an object created during this execution.
+func (e *Exec) ghostOfFresh(name string) bool {
+	i := strings.IndexByte(name, '@')
+	if i < 0 {
+		return false
+	}
+	j := i + 1
+	for j < len(name) && name[j] >= '0' && name[j] <= '9' {
+		j++
+	}
+	id, err := strconv.Atoi(name[i+1 : j])
+	return err == nil && e.freshGhost[uint32(id)]
+}
+
+// ghostKind: "nsend@123" -> "nsend", "lastsent@5#0" -> "lastsent", "nspawn:f" -> "nspawn".
+func ghostKind(name string) string {
+	for i := 0; i < len(name); i++ {
+		if name[i] == '@' || name[i] == '#' || name[i] == ':' {
+			return name[:i]
+		}
+	}
+	return name
+}
+
+// ghostKeyOf evaluates an object-specific ghost item to its key.
+func (e *Exec) ghostKeyOf(env *cenv, it ghostItem) string {
+	v := env.eval(it.Arg)
+	var t *Term
+	switch it.Kind {
+	case "nsend", "lastsend", "sendsame", "sendclock", "nclosesock":
+		t = v.v[1] // interface value: the socket object
+		if _, ok := v.T.Underlying().(*types.Interface); !ok {
+			t = v.v[0]
+		}
+	case "held", "unlockclock":
+		t = v.addr
+	default:
+		t = v.v[0]
+	}
+	if t == nil {
+		env.errf("ghost item %s: no object", it.Kind)
+	}
+	return gkey(it.Kind, t)
+}
+
+// havocGhostKinds forgets the ghost variables of the given kinds only.
+func (e *Exec) havocGhostKinds(st State, kinds []string) State {
+	want := map[string]bool{}
+	for _, k := range kinds {
+		want[k] = true
+	}
+	hasSend := false
+	for _, k := range kinds {
+		if strings.HasPrefix(k, "nsend") {
+			hasSend = true
+		}
+	}
+	if hasSend && !want["nsocksend"] {
+		want["nsocksend"] = true
+		kinds = append(append([]string{}, kinds...), "nsocksend")
+	}
+	e.gepochs++
+	for _, k := range kinds {
+		st.kepoch = &ghostNode{name: k, val: e.c.Const(64, uint64(e.gepochs)), prev: st.kepoch}
+	}
+	// drop the set entries of those kinds or keys (rebuild the list, oldest first)
+	var keep []*ghostNode
+	seen := map[string]bool{}
+	for g := st.ghost; g != nil; g = g.prev {
+		if seen[g.name] {
+			continue
+		}
+		seen[g.name] = true
+		key := g.name
+		if i := strings.IndexByte(key, '#'); i >= 0 {
+			key = key[:i]
+		}
+		if !want[ghostKind(g.name)] && !want[key] {
+			keep = append(keep, g)
+		}
+	}
+	st.ghost = nil
+	for i := len(keep) - 1; i >= 0; i-- {
+		st.ghost = &ghostNode{name: keep[i].name, val: keep[i].val, prev: st.ghost}
+	}
+	return st
 }
 
 // havocGhost forgets all ghost state (loop cut, call through a contract with ghost effects).
@@ -266,6 +449,7 @@ func (e *Exec) newChan(st *State, what string) *Term {
 	s2, a := e.alloc(*st, c.Const(64, 1), what)
 	s2 = s2.setGhost(gkey("closed", a), c.False)
 	s2 = s2.setGhost(gkey("nsent", a), c.Const(64, 0))
+	e.freshGhost[a.id] = true
 	*st = s2
 	return a
 }
@@ -289,11 +473,18 @@ func (e *Exec) recvValue(st State, ch *Term, ET types.Type, pos token.Pos) (open
 	v = e.freshVal(ET, "recv")
 	open = e.assumeValid(st, ET, v, true)
 	// values travelling on channels of pointers are non-nil (checked at every send)
-	if _, ok := ET.Underlying().(*types.Pointer); ok {
+	if pt, ok := ET.Underlying().(*types.Pointer); ok {
 		open = open.assume(c.Ne(v[0], c.Const(64, 0)))
+		n := uint64(e.P.lay.nslots(pt.Elem()))
+		if n == 0 {
+			n = 1
+		}
+		// a received *T cannot point into an object whose type contains no T
+		open = e.typeDisjoint(open, v[0], c.Const(64, n), pt.Elem(), false)
 	}
-	if it, ok := ET.Underlying().(*types.Interface); ok && it.NumMethods() > 0 {
-		open = open.assume(c.Ne(v[0], c.Const(64, 0)))
+	open = e.ghostInc(open, gkey("nrecv", ch))
+	for i, t := range v {
+		open = open.setGhost(fmt.Sprintf("%s#%d", gkey("lastrecv", ch), i), t)
 	}
 	closed = st
 	z = e.zeroVal(ET)
@@ -319,11 +510,14 @@ func (e *Exec) chanRecv(fr *Frame, st State, in *ssa.UnOp) []Outcome {
 
 func (e *Exec) sendObligations(st State, fr *Frame, ch *Term, ET types.Type, v Val, pos token.Pos) State {
 	c := e.c
-	st = e.oblige(st, fr.fn, "nopanic.chan", "send-on-closed", pos, c.Not(e.ghost(st, gkey("closed", ch), Bool)))
-	if _, ok := ET.Underlying().(*types.Pointer); ok {
-		st = e.oblige(st, fr.fn, "chan", "nonnil", pos, c.Ne(v[0], c.Const(64, 0)))
+	if e.recovering > 0 {
+		// the goroutine recovers from the panic of sending on a closed channel and ends;
+		// only the case where the send takes place is followed
+		st = st.assume(c.Not(e.ghost(st, gkey("closed", ch), Bool)))
+	} else {
+		st = e.oblige(st, fr.fn, "nopanic.chan", "send-on-closed", pos, c.Not(e.ghost(st, gkey("closed", ch), Bool)))
 	}
-	if it, ok := ET.Underlying().(*types.Interface); ok && it.NumMethods() > 0 {
+	if _, ok := ET.Underlying().(*types.Pointer); ok {
 		st = e.oblige(st, fr.fn, "chan", "nonnil", pos, c.Ne(v[0], c.Const(64, 0)))
 	}
 	return st
@@ -443,14 +637,51 @@ func (e *Exec) goEnv(fr *Frame, st State, g *ssa.Go, fnv Val, args []Val) []Outc
 		return []Outcome{{st: st}}
 	}
 	e.assumed["spawned goroutines without loops are run to completion in place (eventually scheduled)"] = true
-	e.stack = append(e.stack, fn)
-	outs := e.execFn(fn, args, binds, st, fr.depth+1, fr)
-	e.stack = e.stack[:len(e.stack)-1]
+	rec := recovers(fn)
+	if rec {
+		e.recovering++
+	}
+	outs := e.callStatic(fr, st, fn, args, binds, g.Pos())
+	if rec {
+		e.recovering--
+	}
 	var res []Outcome
 	for _, o := range outs {
 		res = append(res, Outcome{st: o.st})
 	}
 	return res
+}
+
+// recovers: the function defers a closure that calls recover().
+func recovers(fn *ssa.Function) bool {
+	for _, b := range fn.Blocks {
+		for _, in := range b.Instrs {
+			d, ok := in.(*ssa.Defer)
+			if !ok {
+				continue
+			}
+			var callee *ssa.Function
+			switch v := d.Call.Value.(type) {
+			case *ssa.Function:
+				callee = v
+			case *ssa.MakeClosure:
+				callee = v.Fn.(*ssa.Function)
+			}
+			if callee == nil {
+				continue
+			}
+			for _, cb := range callee.Blocks {
+				for _, ci := range cb.Instrs {
+					if c, ok := ci.(*ssa.Call); ok {
+						if bi, ok := c.Call.Value.(*ssa.Builtin); ok && bi.Name() == "recover" {
+							return true
+						}
+					}
+				}
+			}
+		}
+	}
+	return false
 }
 
 func (e *Exec) maybe(v Val) *Term {
